@@ -37,7 +37,10 @@ type faultCase struct {
 	Tolerant    bool   `json:"tolerant"`   // the script stays within the tolerance: everything must be processed
 	StopAfter   int    `json:"stop_after"` // for stop scripts: number of data bytes supplied before the stop
 	WantErrKind string `json:"want_error"` // eof | timeout | other
-	Note        string `json:"note"`
+	// unrelated settings of the same configuration: they must not matter
+	ReadTimeoutMs uint   `json:"read_timeout_ms,omitempty"`
+	SleepOpenMs   uint   `json:"sleep_after_failed_open_ms,omitempty"`
+	Note          string `json:"note"`
 }
 
 var errOther = errors.New("input/output error")
@@ -115,7 +118,8 @@ type faultObs struct {
 func runFaultScript(k faultCase) faultObs {
 	steps := append([]step(nil), k.Steps...)
 	sr := &scriptReader{steps: steps}
-	cfg := &jsonconfig.Config{WaitTimeOnEOFMilliseconds: k.WaitMs, TimeoutOnEOFMilliSeconds: k.TimeoutMs}
+	cfg := &jsonconfig.Config{WaitTimeOnEOFMilliseconds: k.WaitMs, TimeoutOnEOFMilliSeconds: k.TimeoutMs,
+		ReadTimeoutMilliSeconds: k.ReadTimeoutMs, SleepTimeAfterFailedOpenMilliSeconds: k.SleepOpenMs}
 	ch := make(chan handler.Message, 4)
 	fh := filehandler.New(ch, cfg)
 	var obs faultObs
@@ -253,6 +257,15 @@ func monC13(c *child.Ctx, replay json.RawMessage) {
 	var cases []faultCase
 	var nontriv []bool
 	add := func(k faultCase, nt bool) {
+		// the other settings of the configuration (shipped configs set them) must not change the behaviour
+		switch len(cases) % 4 {
+		case 1:
+			k.ReadTimeoutMs = 500
+		case 2:
+			k.ReadTimeoutMs, k.SleepOpenMs = 30000, 1000
+		case 3:
+			k.SleepOpenMs = 250
+		}
 		cases = append(cases, k)
 		nontriv = append(nontriv, nt)
 	}
@@ -320,7 +333,12 @@ func monC13(c *child.Ctx, replay json.RawMessage) {
 		// stop scripts at every boundary (every 2nd in quick): zero tolerance, other error, silence beyond the tolerance
 		stepStop := c.Pick(3, 1)
 		for pos := si % stepStop; pos <= len(data); pos += stepStop {
-			switch (pos/stepStop + si) % 3 {
+			switch (pos/stepStop + si) % 4 {
+			case 3:
+				// a hard error directly after a tolerated end-of-file or timeout (no byte between)
+				f := faultKinds[r.Intn(3)]
+				c.Count("stop_scripts_other_error_after_tolerated_fault", 1)
+				add(faultCase{Steps: mk(pos, []string{f, "other"}), TimeoutMs: tolMs, WaitMs: 1, StopAfter: pos, WantErrKind: "other", Note: fmt.Sprintf("%s then another read error after byte %d", f, pos)}, inside[pos])
 			case 0:
 				f := faultKinds[r.Intn(3)]
 				c.Count("stop_scripts_zero_tolerance", 1)
